@@ -35,7 +35,7 @@ def w(f: float) -> float:
 
 def transform_circuit(circuit: Circuit, w: float, w_resolution: float = 1e-3) -> Network:
     return Network(
-        branches=[transformers[component.type](component, w, w_resolution) for component in circuit.components if component.type in transformers.keys()],
+        branches=[transformers[component.type](component, w, w_resolution) for component in circuit.components if component.type != 'ground'],
         node_zero_label=circuit.ground_node
     )
 
